@@ -1,2 +1,226 @@
 (* C20 — proofs about the de-duplication loops (Model/Dedup.v). *)
+From Coq Require Import Arith Lia ZifyBool DecimalN Permutation.
 From PG Require Import Lib.Strs Gen.Tables Gen.T_C20 Model.Names Model.Dedup Proofs.Names.
+
+(* ================================================================= decimal rendering is injective *)
+Lemma uint_chars_inj : forall u v, uint_chars u = uint_chars v -> u = v.
+Proof.
+  induction u as [|u IH|u IH|u IH|u IH|u IH|u IH|u IH|u IH|u IH|u IH];
+    destruct v; simpl; intro H; try discriminate; try reflexivity;
+    inversion H; f_equal; apply IH; assumption.
+Qed.
+
+Lemma dec_inj : forall n m, dec n = dec m -> n = m.
+Proof.
+  intros n m H. apply uint_chars_inj in H.
+  rewrite <- (DecimalN.Unsigned.of_to n), <- (DecimalN.Unsigned.of_to m), H. reflexivity.
+Qed.
+
+Lemma uint_chars_digits : forall u, forallb is_digit (uint_chars u) = true.
+Proof. induction u; simpl; try reflexivity; exact IHu. Qed.
+
+Lemma dec_digits : forall n, forallb is_digit (dec n) = true.
+Proof. intro n. apply uint_chars_digits. Qed.
+
+Lemma dec_nonempty : forall n, dec n <> [].
+Proof.
+  intro n. unfold dec. destruct n as [|p]; [discriminate|].
+  simpl N.to_uint. intro H.
+  assert (E : Pos.to_uint p = Decimal.Nil) by (destruct (Pos.to_uint p); simpl in H; try discriminate; reflexivity).
+  pose proof (DecimalPos.Unsigned.to_uint_nonnil p). congruence.
+Qed.
+
+(* ================================================================= first-fit choice *)
+Definition injective (cand : nat -> str) : Prop := forall i j, cand i = cand j -> i = j.
+
+Lemma pick_fresh_is_cand : forall fuel cand i seen, exists j, pick_fresh fuel cand i seen = cand j /\ (i <= j)%nat.
+Proof.
+  induction fuel as [|f IH]; intros cand i seen; simpl.
+  - exists i. split; [reflexivity | lia].
+  - destruct (mem_str (cand i) seen).
+    + destruct (IH cand (S i) seen) as [j [E Hj]]. exists j. split; [exact E | lia].
+    + exists i. split; [reflexivity | lia].
+Qed.
+
+(* if the loop runs out of fuel, fuel+1 consecutive candidates are all in [seen] *)
+Lemma pick_fresh_exhausted : forall fuel cand i seen,
+  In (pick_fresh fuel cand i seen) seen -> forall k, (k <= fuel)%nat -> In (cand (i + k)%nat) seen.
+Proof.
+  induction fuel as [|f IH]; intros cand i seen H k Hk; simpl in H.
+  - assert (k = 0)%nat by lia. subst. rewrite Nat.add_0_r. exact H.
+  - destruct (mem_str (cand i) seen) eqn:E.
+    + destruct k as [|k]; [rewrite Nat.add_0_r; apply mem_str_In; exact E|].
+      replace (i + S k)%nat with (S i + k)%nat by lia. apply IH; [exact H | lia].
+    + apply mem_str_In in H. congruence.
+Qed.
+
+(* pigeon-hole: |seen|+1 steps always find a fresh candidate, so the bounded loop IS Python's unbounded one *)
+Lemma pick_fresh_not_in : forall cand seen, injective cand ->
+  ~ In (pick_fresh (S (length seen)) cand 0 seen) seen.
+Proof.
+  intros cand seen Hinj H.
+  pose proof (pick_fresh_exhausted _ _ _ _ H) as Hall.
+  set (cs := map cand (seq 0 (S (length seen)))).
+  assert (Hnd : NoDup cs).
+  { subst cs. apply FinFun.Injective_map_NoDup; [exact Hinj | apply seq_NoDup]. }
+  assert (Hincl : incl cs seen).
+  { intros x Hx. subst cs. apply in_map_iff in Hx. destruct Hx as [k [<- Hk]].
+    apply in_seq in Hk. apply (Hall k). lia. }
+  pose proof (NoDup_incl_length Hnd Hincl) as Hlen.
+  subst cs. rewrite map_length, seq_length in Hlen. lia.
+Qed.
+
+(* ================================================================= assign: results are pairwise distinct *)
+Lemma assign_length : forall cand bases seen, length (assign cand seen bases) = length bases.
+Proof. induction bases as [|b r IH]; intro seen; simpl; [reflexivity | rewrite IH; reflexivity]. Qed.
+
+Lemma assign_fresh : forall cand bases seen, (forall b, injective (cand b)) ->
+  NoDup (assign cand seen bases) /\ forall x, In x (assign cand seen bases) -> ~ In x seen.
+Proof.
+  induction bases as [|b r IH]; intros seen Hinj; simpl.
+  - split; [constructor | intros x []].
+  - set (x := pick_fresh (S (length seen)) (cand b) 0 seen).
+    destruct (IH (x :: seen) Hinj) as [Hnd Hfresh].
+    assert (Hx : ~ In x seen) by (apply pick_fresh_not_in, Hinj).
+    split.
+    + constructor; [|exact Hnd]. intro Hin. apply (Hfresh x Hin). left. reflexivity.
+    + intros y [<-|Hy]; [exact Hx|]. intro Hs. apply (Hfresh y Hy). right. exact Hs.
+Qed.
+
+Theorem assign_nodup : forall cand bases, (forall b, injective (cand b)) -> NoDup (assign cand [] bases).
+Proof. intros cand bases H. apply (assign_fresh cand bases [] H). Qed.
+
+(* every result is a candidate of its own base, in order *)
+Lemma assign_shape : forall cand bases seen,
+  Forall2 (fun b x => exists i, x = cand b i) bases (assign cand seen bases).
+Proof.
+  induction bases as [|b r IH]; intro seen; simpl; [constructor|].
+  constructor; [|apply IH].
+  destruct (pick_fresh_is_cand (S (length seen)) (cand b) 0 seen) as [j [E _]]. exists j. exact E.
+Qed.
+
+(* a base that has not been handed out yet is kept unchanged (first come, first served) *)
+Lemma assign_head_kept : forall cand b r, cand b 0%nat = b -> assign cand [] (b :: r) = b :: assign cand [b] r.
+Proof. intros cand b r H. simpl. rewrite H. reflexivity. Qed.
+
+(* ================================================================= the candidate streams are injective *)
+Lemma app_inv_us_digits : forall a b d1 d2,
+  forallb is_digit d1 = true -> forallb is_digit d2 = true ->
+  a ++ 95 :: d1 = b ++ 95 :: d2 -> a = b /\ d1 = d2.
+Proof.
+  intros a b d1 d2 H1 H2 E.
+  assert (R : rev d1 ++ 95 :: rev a = rev d2 ++ 95 :: rev b).
+  { apply (f_equal (@rev N)) in E. rewrite !rev_app_distr in E. simpl in E. rewrite <- !app_assoc in E. exact E. }
+  assert (G : forall x y p q, forallb is_digit x = true -> forallb is_digit y = true ->
+              x ++ 95 :: p = y ++ 95 :: q -> x = y /\ p = q).
+  { induction x as [|c x IHx]; intros [|e y] p q Hx Hy Ex; simpl in *.
+    - inversion Ex. split; reflexivity.
+    - inversion Ex; subst. apply andb_true_iff in Hy. destruct Hy as [Hy _]. discriminate Hy.
+    - inversion Ex; subst. apply andb_true_iff in Hx. destruct Hx as [Hx _]. discriminate Hx.
+    - inversion Ex; subst. apply andb_true_iff in Hx, Hy.
+      destruct (IHx y p q (proj2 Hx) (proj2 Hy) H3) as [-> ->]. split; reflexivity. }
+  destruct (G (rev d1) (rev d2) (rev a) (rev b)) as [Ed Ea]; try exact R.
+  - rewrite forallb_forall in *. intros x Hx. apply H1, in_rev, Hx.
+  - rewrite forallb_forall in *. intros x Hx. apply H2, in_rev, Hx.
+  - split; [apply (f_equal (@rev N)) in Ea | apply (f_equal (@rev N)) in Ed]; rewrite !rev_involutive in *; assumption.
+Qed.
+
+Lemma cand_us2_inj : forall b, injective (cand_us2 b).
+Proof.
+  intros b [|i] [|j] H; simpl in H; try reflexivity.
+  - apply (f_equal (@length N)) in H. rewrite app_length in H. simpl in H. lia.
+  - apply (f_equal (@length N)) in H. rewrite app_length in H. simpl in H. lia.
+  - apply app_inv_head in H. inversion H as [H']. apply dec_inj in H'. lia.
+Qed.
+
+Lemma cand_us1_inj : forall b, injective (cand_us1 b).
+Proof.
+  intros b [|i] [|j] H; simpl in H; try reflexivity.
+  - apply (f_equal (@length N)) in H. rewrite app_length in H. simpl in H. lia.
+  - apply (f_equal (@length N)) in H. rewrite app_length in H. simpl in H. lia.
+  - apply app_inv_head in H. inversion H as [H']. apply dec_inj in H'. lia.
+Qed.
+
+Lemma last_digit_of_app_dec : forall a n, ends_digit (a ++ dec n) = true.
+Proof.
+  intros a n. unfold ends_digit. rewrite rev_app_distr.
+  pose proof (dec_nonempty n) as Hne. pose proof (dec_digits n) as Hd.
+  destruct (rev (dec n)) as [|c r] eqn:E.
+  - apply (f_equal (@rev N)) in E. rewrite rev_involutive in E. simpl in E. congruence.
+  - simpl. rewrite forallb_forall in Hd. apply Hd. apply in_rev. rewrite E. left. reflexivity.
+Qed.
+
+Lemma class_stem_spec : forall b, (b = class_stem b ++ [95]) \/ (class_stem b = b /\ ends_us b = false).
+Proof.
+  intro b. unfold class_stem, ends_us. destruct (rev b) as [|c r] eqn:E.
+  - right. split; reflexivity.
+  - destruct (c =? 95) eqn:Ec.
+    + left. apply N.eqb_eq in Ec. subst c.
+      apply (f_equal (@rev N)) in E. rewrite rev_involutive in E. simpl in E. exact E.
+    + right. split; [reflexivity|]. apply N.eqb_neq in Ec.
+      destruct c as [|p]; [reflexivity|].
+      do 7 (destruct p as [p|p|]; try reflexivity). exfalso. apply Ec. reflexivity.
+Qed.
+
+Lemma ends_us_ends_digit_excl : forall s, ends_us s = true -> ends_digit s = true -> False.
+Proof.
+  intros s. unfold ends_us, ends_digit. destruct (rev s) as [|c r]; [discriminate|].
+  intros H1 H2. assert (c = 95) by (destruct (N.eq_dec c 95) as [->|Hc]; [reflexivity|];
+    destruct c as [|p]; [discriminate|]; do 7 (destruct p as [p|p|]; try discriminate); reflexivity).
+  subst c. discriminate H2.
+Qed.
+
+Lemma app_dec_longer : forall b n, b = b ++ dec n -> False.
+Proof.
+  intros b n H. apply (f_equal (@length N)) in H. rewrite app_length in H.
+  pose proof (dec_nonempty n) as Hd. destruct (dec n); [congruence|]. simpl in H. lia.
+Qed.
+
+Lemma cand_class_inj : forall b, injective (cand_class b).
+Proof.
+  intros b [|i] [|j] H; cbn [cand_class] in H; try reflexivity.
+  - exfalso. destruct (class_stem_spec b) as [Hb|[Hb Hne]].
+    + apply (ends_us_ends_digit_excl b).
+      * rewrite Hb. apply ends_us_snoc.
+      * rewrite H. apply last_digit_of_app_dec.
+    + rewrite Hb in H. exact (app_dec_longer _ _ H).
+  - exfalso. destruct (class_stem_spec b) as [Hb|[Hb Hne]].
+    + apply (ends_us_ends_digit_excl b).
+      * rewrite Hb. apply ends_us_snoc.
+      * rewrite <- H. apply last_digit_of_app_dec.
+    + rewrite Hb in H. symmetry in H. exact (app_dec_longer _ _ H).
+  - apply app_inv_head in H. apply dec_inj in H. lia.
+Qed.
+
+(* ================================================================= candidates of a valid base are valid *)
+Lemma not_kw_ends_digit : forall s, ends_digit s = true -> is_kw s = false.
+Proof. intros s H. apply (not_kw_of_table ends_digit); [exact kw_table_no_trailing_digit | exact H]. Qed.
+
+Lemma is_ident_app : forall a b, is_ident a = true -> forallb is_ident_char b = true -> is_ident (a ++ b) = true.
+Proof.
+  intros [|c a] b Ha Hb; [discriminate|]. simpl in *. apply andb_true_iff in Ha. destruct Ha as [H1 H2].
+  rewrite H1. simpl. apply forallb_app_iff. split; assumption.
+Qed.
+
+Lemma digits_ident_chars : forall d, forallb is_digit d = true -> forallb is_ident_char d = true.
+Proof. intros d H. eapply forallb_imp; [|exact H]. intros x Hx. apply is_alnum_ident_char, digit_alnum, Hx. Qed.
+
+Lemma suffixed_valid : forall b n, is_ident b = true -> valid_name (b ++ [95] ++ dec n) = true.
+Proof.
+  intros b n Hb. unfold valid_name. rewrite is_ident_app.
+  - rewrite not_kw_ends_digit; [reflexivity|].
+    replace (b ++ [95] ++ dec n) with ((b ++ [95]) ++ dec n) by (rewrite <- app_assoc; reflexivity).
+    apply last_digit_of_app_dec.
+  - exact Hb.
+  - simpl. apply digits_ident_chars, dec_digits.
+Qed.
+
+Lemma cand_us2_valid : forall b i, valid_name b = true -> valid_name (cand_us2 b i) = true.
+Proof.
+  intros b [|i] H; [exact H|]. apply suffixed_valid. unfold valid_name in H. apply andb_true_iff in H. tauto.
+Qed.
+Lemma cand_us1_valid : forall b i, valid_name b = true -> valid_name (cand_us1 b i) = true.
+Proof.
+  intros b [|i] H; [exact H|]. apply suffixed_valid. unfold valid_name in H. apply andb_true_iff in H. tauto.
+Qed.
+
